@@ -7,8 +7,8 @@ import numpy as np
 from vlib import core, dom, rescorr
 
 ID = "C03"
-GEN = ["flowprops"]
-PROPS = ["C03_massbalance.v", "C03_recovery_monotone.v", "C09_constructor.v"]
+GEN = ["flowprops", "reservoir"]
+PROPS = ["C03_massbalance.v", "C03_recovery_monotone.v", "C09_constructor.v", "C03_flux_branch.v"]
 
 
 def run(ctx):
